@@ -267,7 +267,7 @@ func init() {
 			withCheck := map[string]bool{}
 			for _, fi := range c.all {
 				has := false
-				ast.Inspect(fi.Decl.Body, func(nd ast.Node) bool {
+				fi.inspect(fi.Decl.Body, func(nd ast.Node) bool {
 					if cl, ok := nd.(*ast.CompositeLit); ok && isNamed(fi.Info.TypeOf(cl), pathW, "Provider") {
 						has = true
 						lits++
@@ -296,7 +296,7 @@ func init() {
 				if fi.Pkg != c.W {
 					continue
 				}
-				ast.Inspect(fi.Decl.Body, func(nd ast.Node) bool {
+				fi.inspect(fi.Decl.Body, func(nd ast.Node) bool {
 					is, ok := nd.(*ast.IfStmt)
 					if !ok {
 						return true
@@ -362,7 +362,7 @@ func init() {
 				for _, s := range ss {
 					fi := s.fi
 					extra := 0
-					ast.Inspect(fi.Decl.Body, func(nd ast.Node) bool {
+					fi.inspect(fi.Decl.Body, func(nd ast.Node) bool {
 						sel, ok := nd.(*ast.SelectorExpr)
 						if !ok {
 							return true
@@ -399,7 +399,7 @@ func init() {
 					continue
 				}
 				ok := false
-				for _, cl := range callsIn(fi.Decl.Body) {
+				for _, cl := range fi.callsDeep(fi.Decl.Body) {
 					cf := c.FnOf(fi.callee(cl))
 					if cf == nil {
 						continue
@@ -481,7 +481,7 @@ func init() {
 				return
 			}
 			var loop *ast.RangeStmt
-			ast.Inspect(fi.Decl.Body, func(nd ast.Node) bool {
+			fi.inspect(fi.Decl.Body, func(nd ast.Node) bool {
 				rs, ok := nd.(*ast.RangeStmt)
 				if ok && loop == nil {
 					if f := fi.selField(rs.X); f != nil && f.Name() == "Args" {
@@ -626,7 +626,7 @@ func init() {
 				return
 			}
 			handled := map[string]bool{}
-			ast.Inspect(fi.Decl.Body, func(nd ast.Node) bool {
+			fi.inspect(fi.Decl.Body, func(nd ast.Node) bool {
 				sw, ok := nd.(*ast.SwitchStmt)
 				if !ok || sw.Tag == nil {
 					return true
@@ -666,7 +666,7 @@ func init() {
 			fb := r.Need(c.Fn(c.W, "findInjectorBuild"), "findInjectorBuild")
 			if fb != nil {
 				ok := false
-				ast.Inspect(fb.Decl.Body, func(nd ast.Node) bool {
+				fb.inspect(fb.Decl.Body, func(nd ast.Node) bool {
 					if lit, ok2 := nd.(*ast.BasicLit); ok2 && lit.Value == `"Build"` {
 						ok = true
 					}
@@ -689,7 +689,7 @@ func init() {
 				}
 			}
 			n := 0
-			ast.Inspect(fi.Decl.Body, func(nd ast.Node) bool {
+			fi.inspect(fi.Decl.Body, func(nd ast.Node) bool {
 				cl, ok := nd.(*ast.CompositeLit)
 				if !ok || !isNamed(fi.Info.TypeOf(cl), pathW, "objRef") {
 					return true
@@ -869,7 +869,7 @@ func init() {
 			bs := r.Need(c.Fn(c.W, "bindShouldUsePointer"), "bindShouldUsePointer")
 			if bs != nil {
 				ok := false
-				ast.Inspect(bs.Decl.Body, func(nd ast.Node) bool {
+				bs.inspect(bs.Decl.Body, func(nd ast.Node) bool {
 					if lit, ok2 := nd.(*ast.BasicLit); ok2 && lit.Value == `"bindToUsePointer"` {
 						ok = true
 					}
@@ -987,7 +987,7 @@ func (fi *FuncInfo) hasPairCheck() (bool, string) {
 		}
 		if !okN {
 			// X = <lit>.Args made with make([]T, N) in the literal, N same expr as bound
-			ast.Inspect(fi.Decl.Body, func(nd ast.Node) bool {
+			fi.inspect(fi.Decl.Body, func(nd ast.Node) bool {
 				kv, ok := nd.(*ast.KeyValueExpr)
 				if !ok {
 					return true
@@ -1009,8 +1009,8 @@ func (fi *FuncInfo) hasPairCheck() (bool, string) {
 		// X[i] must already be filled when compared: any assignment to X[i] in the outer body precedes the inner loop
 		// the match edge returns a non-nil error
 		rejects := false
-		for _, ret := range fi.returnsOf() {
-			if fi.within(ret, is.Body) && fi.unconditionalIn(ret, is.Body) {
+		for _, ret := range returnsIn(is.Body) {
+			if fi.unconditionalIn(ret, is.Body) {
 				last := ret.Results[len(ret.Results)-1]
 				if !fi.isNilIdent(last) {
 					rejects = true
